@@ -21,7 +21,7 @@ func init() {
 		Rule: "byte strings of every length 0..64 whose integer value is one of {0, 1, r-2..r+2, 2r, 2^255, 2^256-1, p-1, p, all 0xff, random, random with zero padding at either end}, placed big- or little-endian, through every decoder; " +
 			"all scalars of a seeded edge+random set through every encoder; a class is (decoder, length class, value class); non-trivial = non-empty string with non-zero value",
 		Technique:        "reference-model monitor (math/big) on every decode/encode + bitwise snapshot of the caller's buffer around every call",
-		MinEvals:         map[string]int64{"quick": 150000, "thorough": 3000000},
+		MinEvals:         map[string]int64{"quick": 150000, "thorough": 2000000},
 		MinClasses:       map[string]int64{"quick": 100, "thorough": 100},
 		RequiredCounters: []string{"canonical_rejections", "canonical_acceptances", "buffer_snapshots"},
 		Assumptions:      []string{"math/big is the oracle for integer values of byte strings"},
